@@ -70,8 +70,9 @@ def model_replay(prop, tier, ev, rep, module, cfg, *, mode="fraction", label=Non
             rep.violation("vector:" + keyfn(t, fails), {"transition": t, "failures": fails, "mode": "fraction, 2-D points",
                                                         "model": module, "cfg": cfg})
         nv = vector_replay(recs, lib, on_fail_vec)
-        from .vector import vector_fit
+        from .vector import vector_fit, vector_matmul
         nv += vector_fit(recs, lib, val, on_fail_vec)
+        nv += vector_matmul(recs, lib, val, on_fail_vec)
         ev.validated += nv
         ev.extra["paired_calls_with_2D_points"] = ev.extra.get("paired_calls_with_2D_points", 0) + nv
     if val.events:
